@@ -13,7 +13,7 @@ from vf.oracles import norm_cdf, norm_logpdf, quad_1d
 PROPERTY = "C03"
 RULE = ("Flows assembled from zoo transforms (compositions of depth 1-4: spline CDFs with/without tails via "
         "CompositeCDF(Sigmoid, .), affine/LU/QR/SVD/permutation layers, masked autoregressive and coupling layers, Inverse "
-        "wrappers) over StandardNormal / DiagonalNormal / ConditionalDiagonalNormal, 1-3 context rows, float64. (a) 1-D: all "
+        "wrappers) over StandardNormal / DiagonalNormal / ConditionalDiagonalNormal / MADE-mixture (1-3 components, random masks) bases, 1-3 context rows, float64. (a) 1-D: all "
         "parameter regimes (fresh/zero/small/moderate/nonuniform/flatbin = one wide flat or narrow steep bin); integral of exp(log_prob(x|c)) by adaptive Gauss-Legendre "
         "quadrature on panels aligned with the knots and bisected wherever T moves through more than 2e-3 of base mass (aim only; spikes below 1e-13 relative width = inconclusive), over the image under inverse of the base's +-9 sigma box enlarged by "
         "20 % AND over a fixed box [-60, 60] (maps that are not onto lose mass in both); 2-D: bounded-distortion regime "
@@ -29,7 +29,7 @@ def budget(tier):
     return {"examples": 1000 if tier == "quick" else 60000, "wall_s": 110 if tier == "quick" else 1500}
 
 
-NO = ["exp", "tanh", "sigmoid", "cauchycdf", "squeeze", "glu", "batchnorm"]
+NO = ["exp", "tanh", "sigmoid", "cauchycdf", "squeeze", "batchnorm"]
 
 
 @st.composite
@@ -57,7 +57,8 @@ def _case(draw):
                                                  {"t": fam, "bins": draw(st.integers(1, 4)), "tails": None},
                                                  {"t": "logit", "temp": draw(st.sampled_from([1.0, 0.5, 2.0]))}]}
     c["what"] = what
-    c["base"] = draw(st.sampled_from(["standard", "standard", "diagonal", "conditional"]))
+    c["base"] = draw(st.sampled_from(["standard", "standard", "diagonal", "conditional"] + (["mademog", "mademog"] if what != "differential" else [])))
+    c["mog"] = {"K": draw(st.integers(1, 3)), "res": draw(st.booleans()), "random_mask": draw(st.booleans()), "blocks": draw(st.integers(1, 2))}
     c["rows"] = draw(st.integers(1, 3))
     c["seed"] = draw(st.integers(0, 10 ** 6))
     return c
@@ -125,6 +126,12 @@ def run_case(case):
                 base.mean_.copy_(torch.randn(1, D, generator=g))
                 base.log_std_.copy_(torch.randn(1, D, generator=g) * 0.4)
             mu, ls = base.mean_.detach().numpy().repeat(max(1, rows), 0), base.log_std_.detach().numpy().repeat(max(1, rows), 0)
+        elif bk == "mademog" and case["what"] != "differential":
+            mg = case.get("mog", {"K": 2, "res": True, "random_mask": False, "blocks": 1})
+            base = dist.MADEMoG(D, 8, ctxk, num_blocks=mg["blocks"], num_mixture_components=mg["K"], random_mask=mg["random_mask"],
+                                use_residual_blocks=mg["res"] and not mg["random_mask"])
+            # aim only: the mixture of a freshly initialised MADE sits within a few units of 0
+            mu, ls = np.zeros((max(1, rows), D)), np.full((max(1, rows), D), math.log(1.5))
         else:
             base = dist.StandardNormal([D])
             mu, ls = np.zeros((max(1, rows), D)), np.zeros((max(1, rows), D))
